@@ -26,7 +26,7 @@ META = dict(
 )
 
 MAXSIZE = 256 << 10
-VET_MS = 100
+VET_MS = 80        # CPU milliseconds of the lone run (non-race build)
 VET_BYTES = 1500000
 
 # per-format options that exist in format/format.go (*_In structs with `doc` tags), by testdata family
@@ -351,7 +351,7 @@ def run(ctx):
                         'MC bounds: see tlc_runs']
     ctx.cov['trusted_base'] += ['harness/c18 treeText (tree -> text, no oracle: same code on both sides of the comparison)']
 
-    # model checking runs concurrently with the builds and the vetting pass
+    # model checking runs concurrently with the real-code arms
     mc_err = []
 
     def mc():
@@ -363,15 +363,20 @@ def run(ctx):
     mct.start()
 
     try:
-        binp = ctx.go_build('c18')
-        binr = ctx.go_build('c18', race=True)
-        specs_all, bases, nfiles, ntotal = build_specs(ctx, binp)
-        lone = vet(ctx, binp, specs_all)
+        real_arms(ctx)
     finally:
         mct.join()
     if mc_err:
         raise mc_err[0]
-    vlib.log('builds, vetting pass and model checking done at %.0fs' % (time.time() - ctx.t0))
+
+
+def real_arms(ctx):
+    th = ctx.tier == 'thorough'
+    binp = ctx.go_build('c18')
+    binr = ctx.go_build('c18', race=True)
+    specs_all, bases, nfiles, ntotal = build_specs(ctx, binp)
+    lone = vet(ctx, binp, specs_all)
+    vlib.log('builds and vetting pass done at %.0fs' % (time.time() - ctx.t0))
     specs = [s for s in specs_all if s['id'] in lone]
     byid = {s['id']: s for s in specs}
     if len(specs) < 200:
@@ -524,7 +529,7 @@ def run(ctx):
     if th:
         rounds = [(g, 520) for g in (16, 8, 4, 16, 12, 2)] * 5
     else:
-        rounds = [(16, 220), (8, 160), (4, 100), (12, 140)]
+        rounds = [(16, 200), (8, 140), (4, 90), (12, 120)]
     traces = collections.defaultdict(list)      # goroutines -> [(events, round)]
     ndrive = 0
     for k, (g, n) in enumerate(rounds):
